@@ -19,6 +19,7 @@ Require Import V.Proofs.C02OracleProofs.
 Require Import V.Proofs.C02Words.
 Require Import V.Proofs.C02Trace.
 Require Import V.Proofs.C02OracleFull.
+Require Import V.Proofs.C02OracleRun.
 Require Import V.Model.Appender.
 Require Import V.Model.Publication.
 Require Import V.Proofs.C02SeqTerm.
@@ -171,6 +172,23 @@ Theorem C02_oracle : forall c, wf_cfg c -> forall orig s th gh tr n stop g offer
 Proof. intros c W orig s th gh tr n stop g offers OB R D Hlen Hpub.
   exact (oracle_full c W orig OB s th gh tr R D n stop g offers Hlen Hpub). Qed.
 Print Assumptions C02_oracle.
+
+(* the same for the EXECUTABLE run of the model that the correspondence check evaluates for every case (AppenderThreads.run_case =
+   Sched.run: the schedule, then every thread drained in thread-id order): when every step it takes is admissible
+   (C02OracleRun.adm_sched_t / adm_drain: sys_adm at every granted step) and all threads end done, holds_C02 is true on run_case's
+   own observation *)
+Theorem C02_oracle_run : forall c, wf_cfg c -> forall limit ths sched stops orig offers,
+  (forall t m, In m (orig t) -> Forall byte m) ->
+  (forall t, match threads_of ths t with TPub l => exists b, l = p_start (orig t) b [] | _ => True end) ->
+  length offers = length ths ->
+  (forall t l, threads_of ths t = TPub l -> nth t offers [] = orig t) ->
+  let r0 := (init_shared c limit, threads_of ths, (fun _ : nat => O), @nil event) in
+  adm_sched_t c (stop_of stops) sched r0 ->
+  adm_drain c (stop_of stops) (Z.to_nat 20000) (seq 0 (length ths)) (run_sched (tstep c) (stop_of stops) sched r0) ->
+  (let '(s, th, g, tr) := run (tstep c) (length ths) (Z.to_nat 20000) (stop_of stops) sched (init_shared c limit, threads_of ths) in all_done th) ->
+  holds_C02 c offers (run_case c limit ths sched stops) = true.
+Proof. exact oracle_run. Qed.
+Print Assumptions C02_oracle_run.
 
 (* every reacht configuration is a reach configuration: all theorems above apply to it *)
 Theorem C02_reacht_reach : forall c orig s th gh tr, reacht c orig s th gh tr -> reach c s th gh.
